@@ -100,6 +100,15 @@ def audit(ck, prog, rule, root_adt, what):
                     unknown.append("container: from/into = %s (%s)" % (conv["from"], why))
                 else:
                     seen.append("from/into = %s: %s" % (conv["from"], why))
+            elif all(w == "container" for w, _, _ in pending) and set(conv) == {"from"} and not any("rename" in str(x) for x in seen):
+                # written by the derive (a unit variant as its name), read through From<via>
+                v, why = convert_pair(prog, d, conv["from"], from_only=True)
+                if v == "bad":
+                    bad.append("container: from = %s while Serialize is derived: %s" % (conv["from"], why))
+                elif v == "unknown":
+                    unknown.append("container: from = %s (%s)" % (conv["from"], why))
+                else:
+                    seen.append("from = %s: %s" % (conv["from"], why))
             else:
                 unknown += ["%s: %s = %s (a one-sided or fallible conversion: whether it undoes the other direction is not decided)" % x for x in pending]
         if bad:
@@ -137,7 +146,7 @@ def _skip_if(tg, t, d, where, pred, has_default):
     return "unknown" if has_default else "bad"
 
 
-def convert_pair(prog, d, via):
+def convert_pair(prog, d, via, from_only=False):
     """container from = via, into = via on a field-less enum: evaluate  From<via> for E (From<E> for via (v))  for every
     variant v over the MIR of the two conversions.  ("ok"|"bad"|"unknown", reason)"""
     from .interp import Interp, Stuck
@@ -163,6 +172,9 @@ def convert_pair(prog, d, via):
     s_pat = r"(^|::)String$"
     into = find(e_pat, s_pat)
     frm = find(s_pat, e_pat)
+    if from_only:
+        # derive(Serialize) writes a unit variant as its name; reading goes through From<String>
+        into = [None]
     if len(into) != 1 or len(frm) != 1:
         return "unknown", "conversion functions not found uniquely (into: %d, from: %d)" % (len(into), len(frm))
 
@@ -208,7 +220,7 @@ def convert_pair(prog, d, via):
     try:
         for v in d["variants"]:
             val = ("variant", ename, v["idx"], v["name"], [], int(v["discr"]))
-            s = ev(into[0], [val])
+            s = ("str", v["name"]) if from_only else ev(into[0], [val])
             if s[0] != "str":
                 raise Stuck("writing %s gives %s, not a string constant" % (v["name"], s[0]))
             back = ev(frm[0], [s])
